@@ -19,6 +19,31 @@ pub struct Case {
     pub objs: Vec<ObjSpec>,
     pub receive_once: bool,
     pub fs: bool,
+    /// receiver configuration: 0 = flute's defaults; 1 = failed-object list of 3, session time-out 60 s, no
+    /// object time-out, 1 MiB object cache, expiry check off; 2 = tiny failed-object list, 5 s object
+    /// time-out, 64 KiB cache (a clean in-order channel must not notice any of it)
+    #[serde(default)]
+    pub rx_variant: u8,
+}
+
+fn rx_config(case: &Case) -> flute::receiver::Config {
+    let mut c = recv_config(case.receive_once);
+    match case.rx_variant {
+        1 => {
+            c.max_objects_error = 3;
+            c.session_timeout = Some(Duration::from_secs(60));
+            c.object_timeout = None;
+            c.object_max_cache_size = Some(1 << 20);
+            c.enable_fdt_expiration_check = false;
+        }
+        2 => {
+            c.max_objects_error = 1;
+            c.object_timeout = Some(Duration::from_secs(5));
+            c.object_max_cache_size = Some(64 * 1024);
+        }
+        _ => {}
+    }
+    c
 }
 
 #[derive(Default, Clone, Debug)]
@@ -198,7 +223,7 @@ pub fn run_case(case: &Case) -> (Vec<Violation>, Guards) {
             let dest = tmp.as_ref().unwrap().join("dest");
             std::fs::create_dir_all(&dest).unwrap();
             let b = Rc::new(ObjectWriterFSBuilder::new(&dest, true).map_err(|e| ("C01/harness-fs".to_string(), format!("{:?}", e)))?);
-            let mut rx = MultiReceiver::new(b, Some(recv_config(case.receive_once)), false);
+            let mut rx = MultiReceiver::new(b, Some(rx_config(case)), false);
             for (t, p) in &pkts {
                 if let Err(e) = rx.push(&endpoint(), p, *t) {
                     return Err((format!("C01/push-error/{:?}/fs", case.sess.oti.scheme), format!("push returned {:?}", e.0.to_string())));
@@ -225,7 +250,7 @@ pub fn run_case(case: &Case) -> (Vec<Violation>, Guards) {
             return Ok(());
         }
         let mon = Mon::new(true);
-        let (results, panic) = deliver(&mon, recv_config(case.receive_once), &pkts);
+        let (results, panic) = deliver(&mon, rx_config(case), &pkts);
         if let Some(p) = panic {
             return Err((format!("C01/panic/{}", panic_sig(&p)), format!("receiver panicked: {}", p)));
         }
@@ -376,7 +401,7 @@ fn core_grid(thorough: bool) -> Vec<Case> {
                                 if len % 2 == 0 && e >= 4 {
                                     s.oti = OtiSpec::new(scheme, 64, 8, parity.max(if scheme == Scheme::NoCode { 0 } else { 1 }), true);
                                 }
-                                v.push(Case { sess: s, objs: vec![o], receive_once: true, fs: false });
+                                v.push(Case { sess: s, objs: vec![o], receive_once: true, fs: false, rx_variant: 0 });
                             }
                         }
                     }
@@ -401,7 +426,7 @@ fn core_grid(thorough: bool) -> Vec<Case> {
                             o.oti = Some(oti);
                             o.md5 = md5;
                             let s = SessSpec::basic(OtiSpec::new(Scheme::NoCode, 1424, 64, 0, true));
-                            v.push(Case { sess: s, objs: vec![o], receive_once: true, fs: false });
+                            v.push(Case { sess: s, objs: vec![o], receive_once: true, fs: false, rx_variant: 0 });
                         }
                     }
                 }
@@ -416,7 +441,7 @@ fn core_grid(thorough: bool) -> Vec<Case> {
                 let mut o = ObjSpec::simple(len as usize, 2);
                 o.oti = Some(oti.clone());
                 let s = SessSpec::basic(OtiSpec::new(Scheme::NoCode, 1424, 64, 0, true));
-                v.push(Case { sess: s, objs: vec![o], receive_once: true, fs: false });
+                v.push(Case { sess: s, objs: vec![o], receive_once: true, fs: false, rx_variant: 0 });
             }
         }
     }
@@ -478,7 +503,8 @@ fn session_grid(thorough: bool) -> Vec<Case> {
                                                     }
                                                     objs.push(o);
                                                 }
-                                                v.push(Case { sess: s, objs, receive_once: once, fs });
+                                                let rx_variant = (v.len() % 3) as u8;
+                                                v.push(Case { sess: s, objs, receive_once: once, fs, rx_variant });
                                             }
                                         }
                                     }
@@ -500,7 +526,7 @@ fn session_grid(thorough: bool) -> Vec<Case> {
             o.ctype = "text/plain; charset=utf-8".into();
             o.etag = Some(format!("\"v{}\"", j));
             let s = SessSpec::basic(OtiSpec::new(Scheme::NoCode, 1424, 64, 0, true));
-            v.push(Case { sess: s, objs: vec![o], receive_once: true, fs: false });
+            v.push(Case { sess: s, objs: vec![o], receive_once: true, fs: false, rx_variant: 0 });
         }
     }
     v
@@ -549,7 +575,8 @@ fn mixed_grid(thorough: bool) -> Vec<Case> {
                                     o.location = format!("file:///mixed/{}/o{}", ti, j);
                                     objs.push(o);
                                 }
-                                v.push(Case { sess: s, objs, receive_once: true, fs: false });
+                                let rx_variant = (v.len() % 3) as u8;
+                                v.push(Case { sess: s, objs, receive_once: true, fs: false, rx_variant });
                             }
                         }
                     }
